@@ -30,7 +30,8 @@ func checkConnectiveTypes(c *core.Ctx, rule string) {
 				switch callee {
 				case "logical.TypecheckExpression":
 					side := "L"
-					if strings.Contains(core.ExprStr(call.Args[len(call.Args)-1]), "right") {
+					// which operand is typechecked: by the value handed over (x.right, also through a helper's parameter)
+					if a := args[len(args)-1]; a != nil && strings.HasSuffix(a.Canon(), ".right") {
 						side = "R"
 					}
 					return st.NewObj("expr", map[string]absint.Val{"Type": absint.S("TYPE" + side)}), true
